@@ -88,7 +88,12 @@ def tokenise(markup):
 def expected(markup):
     """(visible data, hidden data) of a document: reference events classified by the region spec; every token of the
     markup that is not visible data (comment text, buffered remainder, attribute values) is expected to be absent."""
-    ev = tokenise(markup)
+    try:
+        ev = tokenise(markup)
+    except Exception as e:  # noqa
+        # html.parser itself refuses the document (malformed marked section): there is no reference event stream, hence no
+        # visible text to insist on -- but whatever the reader returns must still not contain the content written as removed
+        return [("X", f"{type(e).__name__}: {e}")], [], sorted(t for t in tokens([markup]) if t.startswith("HID"))
     vis, hid = classify(ev)
     rest = sorted(tokens([markup]) - tokens(vis) - tokens(hid))
     return ev, vis, hid + rest
@@ -252,6 +257,27 @@ def is_extraction_error(e):
         return isinstance(e, ExtractionError)
     except Exception:  # noqa
         return False
+
+
+def parser_error_docs():
+    """Documents html.parser refuses (a malformed marked section raises inside feed()): removed content before and after."""
+    bad = ["<![ endif]>", "<![x[", "<![if", "<![ if !mso]>"]
+    return [f"<html><head><style>.HIDs {{}}</style></head><body><p>VISa</p><script>var HIDa;</script><noscript>HIDb</noscript>"
+            f"<iframe src=x>HIDc</iframe><!-- HIDd -->{b}<object data=x>HIDe</object><p>VISb</p></body></html>" for b in bad]
+
+
+def meta_docs():
+    """Document metadata with unusual values (charset labels Python has no codec for, empty / odd attributes): whatever the
+    metadata code does with them, removed content stays removed and visible text stays."""
+    labels = ["iso-8859-8-i", "windows-874", "unicode", "x-user-defined", "x-sjis", "", "utf8", " UTF-8 ", "none", "x" * 70, "utf-8;q=1", "\u00e9"]
+    docs = []
+    for l in labels:
+        docs.append(f"<html><head><meta charset='{l}'><style>.HIDs {{}}</style></head><body><p>VISa</p><script>var HIDa;</script><noscript>HIDb</noscript><p>VISb</p></body></html>")
+        docs.append(f"<html><head><meta http-equiv='Content-Type' content='text/html; charset={l}'></head><body><p>VISa</p><!-- HIDa --><iframe>HIDb</iframe><p>VISb</p></body></html>")
+    for extra in ["<meta name='description'>", "<meta name='keywords' content>", "<meta content='x'>", "<meta http-equiv='refresh'>", "<base>", "<link rel=x>",
+                  "<meta name='author' content=''>", "<html lang>", "<meta property='og:title'>"]:
+        docs.append(f"<html><head>{extra}</head><body><p>VISa</p><script>var HIDa;</script><object>HIDb</object><p>VISb</p></body></html>")
+    return docs
 
 
 def line_start_docs():
@@ -510,6 +536,8 @@ def grammar():
              "<!-- HIDa --><p>VISa</p><script>// --> HIDb</script><p>VISb</p>", "<p>VISa</p><!-- HIDa -- HIDb --><p>VISb</p>", "<p>VISa</p><!--HIDa--!><p>VISb</p>"]
     docs += literal_docs()
     docs += conditional_comment_docs()
+    docs += meta_docs()
+    docs += parser_error_docs()
     docs += long_prefix_docs()
     docs += line_start_docs()
     docs += deep_docs()
@@ -750,6 +778,8 @@ def recorded_known_docs(searching_for=""):
                     continue        # the search IS for the recorded finding's own obligation
                 if f.get("property") == "C17" and w.get("markup_builder"):
                     out.append(dict(w["markup_builder"], only=w.get("only")))
+                    for fam in w.get("families") or []:       # other document families that fail for the same recorded cause
+                        out.append({"fn": fam, "index": 0, "only": w.get("only")})
     except Exception:  # noqa
         pass
     return out
